@@ -84,7 +84,7 @@ theorem fact_key_resolver : Facts.C09.keyResolverAbortCondition = "err != resolv
     one `store.Add` of exactly that document under exactly that transaction. -/
 theorem accepted_create_sound (c : Cfg) (s s' : Store) (tx : Tx) (pd : Option NDoc) (k : Key)
     (h : callback c s tx pd = .ok s') (hk : tx.embedded = some k) :
-    ∃ d, pd = some d ∧ validate c.thumb c.validators d = .ok () ∧ d.idID = c.didThumb k ∧
+    ∃ d, pd = some d ∧ validate c.thumb c.vmNilJwkErr c.validators d = .ok () ∧ d.idID = c.didThumb k ∧
       checkTransactionIntegrity tx = .ok () ∧ add c.store s (eventOf tx d) = .ok s' := by
   obtain ⟨hint, d, hpd, hval, hcase⟩ := callback_ok_inv c s s' tx pd h
   rcases hcase with ⟨k', hk', hc⟩ | ⟨hnone, _⟩
@@ -115,7 +115,7 @@ theorem accepted_create_signed_by_did_key (c : Cfg) (s s' : Store) (tx : Tx) (pd
     key the transaction's `kid` resolves to as of the prevs. The only effect is one `store.Add`. -/
 theorem accepted_update_sound (c : Cfg) (s s' : Store) (tx : Tx) (pd : Option NDoc)
     (h : callback c s tx pd = .ok s') (hu : tx.embedded = none) :
-    ∃ d cur ctrl e k k', pd = some d ∧ validate c.thumb c.validators d = .ok () ∧
+    ∃ d cur ctrl e k k', pd = some d ∧ validate c.thumb c.vmNilJwkErr c.validators d = .ok () ∧
       Succeeds s d.id tx.prevs cur ∧ ControllerFor c s tx cur ctrl ∧
       e ∈ ctrl.f .capInv ∧ KeyInfo.ofBody e.body = .key k' ∧
       resolvePublicKey c.maxDepth s tx.kid tx.prevs = .ok k ∧ c.thumb k' = c.thumb k ∧
@@ -124,7 +124,7 @@ theorem accepted_update_sound (c : Cfg) (s s' : Store) (tx : Tx) (pd : Option ND
   rcases hcase with ⟨k', hk', _⟩ | ⟨_, hup⟩
   · rw [hu] at hk'; cases hk'
   · obtain ⟨cur, ctrls, k, hcur, hctrls, hk, hf, hadd⟩ := handleUpdate_ok_inv c s s' tx d hup
-    obtain ⟨e, he, k', hk', ht⟩ := findKey_true c.thumb (c.thumb k) _ hf
+    obtain ⟨e, he, k', hk', ht⟩ := findKey_true c.thumb c.findKeyNilJwkErr (c.thumb k) _ hf
     obtain ⟨ctrl, hctrl, hmem⟩ := mem_capInvOf ctrls e he
     exact ⟨d, cur, ctrl, e, k, k', hpd, hval, currentVersion_ok s d.id tx.prevs cur hcur,
       ambControllers_sound c s cur tx ctrls hctrls ctrl hctrl, hmem, hk', hk, ht, hadd⟩
@@ -255,7 +255,7 @@ theorem removed_key_rejected (c : Cfg) (s : Store) (tx : Tx) (d : NDoc) (cur : D
   obtain ⟨cur', ctrls, k₂, hcur', hc, hk₂, hf, _⟩ := handleUpdate_ok_inv c s s' tx d h
   rw [hcur] at hcur'; cases hcur'
   rw [hk] at hk₂; cases hk₂
-  obtain ⟨e, he, k', hk', ht⟩ := findKey_true c.thumb (c.thumb k) _ hf
+  obtain ⟨e, he, k', hk', ht⟩ := findKey_true c.thumb c.findKeyNilJwkErr (c.thumb k) _ hf
   obtain ⟨ctrl, hctrl, hmem⟩ := mem_capInvOf ctrls e he
   exact hgone ctrl (ambControllers_sound c s cur tx ctrls hc ctrl hctrl) e hmem k' hk' ht
 
@@ -279,10 +279,10 @@ theorem removed_key_rejected_self_controlled (c : Cfg) (s : Store) (tx : Tx) (d 
     per DID-core (go-did's W3C checks) and the Nuts method rules: every verificationMethod / service id has a
     fragment, is prefixed by the document's DID and is unique; every verificationMethod's fragment is the thumbprint
     of its key; at most one service per type. (`WellFormedNuts` is the declarative statement.) -/
-theorem validator_rules_sound_complete (thumb : Key → String) (d : NDoc) :
-    validate thumb Facts.C09.networkValidators d = .ok () ↔ WellFormedNuts thumb d := by
+theorem validator_rules_sound_complete (thumb : Key → String) (nilErr : Bool) (d : NDoc) :
+    validate thumb nilErr Facts.C09.networkValidators d = .ok () ↔ WellFormedNuts thumb d := by
   rw [fact_network_validators]
-  exact validate_ok_iff thumb d
+  exact validate_ok_iff thumb nilErr d
 
 private def wKey : NVM := { id := "did:nuts:a#k", pfx := "did:nuts:a", frag := "k", key := .key "k" }
 private def wSvc (id frag type : String) : NSvc := { id := id, pfx := "did:nuts:a", frag := frag, type := type }
@@ -296,7 +296,7 @@ def nutsRules : List Rule :=
 /-- **Each rule is necessary.** For every Nuts rule there is a document that the validator with just that rule
     switched off accepts although it is not well-formed. -/
 theorem validator_rules_each_necessary :
-    ∀ r ∈ nutsRules, ∃ d, validateList (fun k => k) (fun x => decide (x ≠ r)) d Facts.C09.networkValidators = .ok () ∧
+    ∀ r ∈ nutsRules, ∃ d, validateList (fun k => k) Facts.C09.verifyThumbprintGuardsNilJwk (fun x => decide (x ≠ r)) d Facts.C09.networkValidators = .ok () ∧
       ¬ WellFormedNuts (fun k => k) d := by
   intro r hr
   simp only [nutsRules, List.mem_cons, List.mem_nil_iff, or_false] at hr
@@ -320,10 +320,34 @@ theorem validator_rules_each_necessary :
   · exact ⟨wDoc [wKey] [wSvc "did:nuts:a#s1" "s1" "t", wSvc "did:nuts:a#s2" "s2" "t"], by decide,
       fun h => by have := h.2.2.2.2.2; revert this; decide⟩
 
+/-- The property text read literally — EVERY verification method of an accepted document, also one EMBEDDED in a
+    verification relationship, has an id prefixed by the DID whose fragment is the key's thumbprint. -/
+def validator_rules_Stmt : Prop :=
+  ∀ (thumb : Key → String) (nilErr : Bool) (d : NDoc), validate thumb nilErr Facts.C09.networkValidators d = .ok () →
+    ∀ v ∈ d.auth ++ d.assertion ++ d.keyAgr ++ d.capInv ++ d.capDel,
+      v.frag ≠ "" ∧ v.pfx = d.id ∧ ∃ k, v.key = .key k ∧ thumb k = v.frag
+
+/-- what IS proved: the rules hold for the entries of `verificationMethod` and `service` (the lists the two Nuts
+    validators range over — `fact_validator_scope`); missing from the full statement: embedded relationship methods. -/
+theorem validator_rules_partial (thumb : Key → String) (nilErr : Bool) (d : NDoc) :
+    validate thumb nilErr Facts.C09.networkValidators d = .ok () ↔ WellFormedNuts thumb d :=
+  validator_rules_sound_complete thumb nilErr d
+
+private def wEmbedded : NVM := { id := "did:nuts:b#x", pfx := "did:nuts:b", frag := "x", key := .key "other" }
+private def wEmbDoc : NDoc := { id := "did:nuts:a", idID := "a", vms := [wKey], capInv := [wKey, wEmbedded] }
+
+/-- **The literal statement is false of the code** (open finding): a document whose capabilityInvocation embeds a
+    method with a foreign id prefix and a fragment that is not its key's thumbprint passes the network validator.
+    The same witness shape is replayed on the real ambassador from `harness/corpus/C09`. -/
+theorem validator_rules_embedded_witness : ¬ validator_rules_Stmt := by
+  intro h
+  have := h (fun k => k) Facts.C09.verifyThumbprintGuardsNilJwk wEmbDoc (by decide) wEmbedded (by decide)
+  exact absurd this.2.1 (by decide)
+
 /-- non-vacuity: a well-formed document exists and is accepted; each witness above is rejected by the full validator -/
-example : validate (fun k => k) Facts.C09.networkValidators (wDoc [wKey] [wSvc "did:nuts:a#s" "s" "t"]) = .ok () := by decide
-example : validate (fun k => k) Facts.C09.networkValidators (wDoc [wKey, wKey] []) = .err "validate:vm:unique" := by decide
-example : validate (fun k => k) Facts.C09.networkValidators (wDoc [wKey] [wSvc "did:nuts:a#s1" "s1" "t", wSvc "did:nuts:a#s2" "s2" "t"])
+example : validate (fun k => k) Facts.C09.verifyThumbprintGuardsNilJwk Facts.C09.networkValidators (wDoc [wKey] [wSvc "did:nuts:a#s" "s" "t"]) = .ok () := by decide
+example : validate (fun k => k) Facts.C09.verifyThumbprintGuardsNilJwk Facts.C09.networkValidators (wDoc [wKey, wKey] []) = .err "validate:vm:unique" := by decide
+example : validate (fun k => k) Facts.C09.verifyThumbprintGuardsNilJwk Facts.C09.networkValidators (wDoc [wKey] [wSvc "did:nuts:a#s1" "s1" "t", wSvc "did:nuts:a#s2" "s2" "t"])
     = .err "validate:svc:duplicate-type" := by decide
 
 end Nuts.C09.Props
